@@ -39,6 +39,9 @@ ENCODINGS = [
     # every label is a one-character prefix of the (never occurring) sentinel: the array dtype <U1 is narrower than the sentinel
     ("strprefix/nan", ["n", "a", "y"], "nan", str),
     # sentinels given as numpy scalars (e.g. taken from an array: y.min())
+    # integer label arrays with a float-typed sentinel of integral value
+    ("int/-1.0", [-1, 0, 1, 2], -1.0, int),
+    ("int/np.float64(0)", [0, 1, 2, 3], np.float64(0), int),
     ("int/np.int64(-1)", [-1, 0, 1, 2], np.int64(-1), int),
     ("float/np.float32(-1)", [-1.0, 0.0, 1.0, 2.0], np.float32(-1), float),
     ("obj/None-num", [None, 0, 1, 2], None, object),
